@@ -96,9 +96,14 @@ class MatchingCostFailed(Exception):
     """the steps before the disparity step failed on this input (reported as a skipped case)"""
 
 
-def run_machine(il, ir, measure, window, subpix, invalid_cfg, with_right):
+NO_PRIOR = object()
+
+
+def run_machine(il, ir, measure, window, subpix, invalid_cfg, with_right, prior_invalid_cfg=NO_PRIOR):
     """returns for each side: (cv snapshot before the disparity step, cv after, observed disparity dataset,
-    per-pixel interval grids, disparity coordinate, type_measure)"""
+    per-pixel interval grids, disparity coordinate, type_measure).
+    `prior_invalid_cfg`: the machine first runs the same pipeline configured with ANOTHER invalid_disparity
+    (a machine object used for several runs: what one run leaves on it must not leak into the next)."""
     from pandora.state_machine import PandoraMachine
 
     pipe = {
@@ -111,6 +116,21 @@ def run_machine(il, ir, measure, window, subpix, invalid_cfg, with_right):
         pipe["validation"] = {"validation_method": "cross_checking_accurate"}
     cfg = {"pipeline": pipe}
     m = PandoraMachine()
+    if prior_invalid_cfg is not NO_PRIOR:
+        import copy
+
+        pcfg = copy.deepcopy(cfg)
+        if prior_invalid_cfg is None:
+            pcfg["pipeline"]["disparity"].pop("invalid_disparity", None)
+        else:
+            pcfg["pipeline"]["disparity"]["invalid_disparity"] = prior_invalid_cfg
+        try:
+            m.run_prepare(pcfg, il.copy(deep=True), ir.copy(deep=True))
+            for step in pcfg["pipeline"]:
+                m.run(step, pcfg)
+            m.run_exit()
+        except Exception as exc:  # pylint: disable=broad-except
+            raise MatchingCostFailed(f"prior run: {type(exc).__name__}: {exc}") from exc
     try:
         m.run_prepare(cfg, il, ir)
         m.run("matching_cost", cfg)
